@@ -13,6 +13,7 @@ PROPS = {
     ]),
     "C12": dict(pkg="net", level="exploration", stages=[
         direct("stars", "TestC12Stars", quick=dict(shards=16, timeout=1200), thorough=dict(shards=16, timeout=3600)),
+        direct("forks", "TestC12Forks", quick=dict(shards=16, timeout=1200), thorough=dict(shards=16, timeout=3600)),
         rapid("rapid", "TestC12", dict(shards=16, checks=3, timeout=1200), dict(shards=16, checks=120, timeout=14000)),
         rapid("race", "TestC12", dict(shards=4, checks=2), dict(shards=4, checks=10, timeout=7200), race=True, tiers=["thorough"]),
     ]),
